@@ -73,9 +73,9 @@ func AuditViews(x *Exec) string {
 	}
 	type vw struct {
 		name, sql string
-		n       int
-		want    []string
-		ordered bool
+		n         int
+		want      []string
+		ordered   bool
 	}
 	views := []vw{
 		{"vkey", "select key, type from vkey", 2, wantK, false},
